@@ -141,6 +141,31 @@ def _unsolved_step(ctx, it, f, cls, p):
     )
 
 
+def _uniform_and_linear(ctx, cls, p):
+    """the partition is selected by an exact test `all(diff(time) == one value)` and cls.alpha_scaled is level-independent"""
+    import re
+
+    from ..values import Inst
+
+    exact = any(
+        k[0] == "opaque" and c and re.match(r"all\(cmp:==\(vec\(\[\]\(time, @J \+ 1\) - \[\]\(time, @J\), ", str(k[1])) and "@J" not in str(k[1]).split("), ", 1)[-1]
+        for k, c, _d in p.decisions
+    )
+    if not exact:
+        return False
+    ci = ctx.P.cls(RES + cls)
+    m = ci.lookup("alpha_scaled")
+    if m is None:
+        return False
+    it = interp(ctx)
+    paths = returns(it.explore(lambda x: x.enter(m, x.symbolic_args(m), Inst(ci, {}, "self"), None, ci)))
+    vals = {nf.key(it.to_nf(q.value)) for q in paths}
+    if len(vals) != 1:
+        return False
+    v = nf.unkey(next(iter(vals)))
+    return not nf.symbols(v)  # a constant (np.ones_like(level) has generic element 1)
+
+
 def _step(ctx, cls):
     it, f, parts = sim_step(ctx, cls)
     out = []
@@ -151,6 +176,26 @@ def _step(ctx, cls):
         if len(sol) != 1:
             raise AnalysisError(f"{cls}.simulate: expected one linear solve per step, found {len(sol)}")
         A, b = solver_inputs(sol[0])
+        stale = sorted({s_ for v in (A, b) if v is not None for s_ in nf.symbols(it.to_nf(v)) if s_.endswith("@carried")})
+        if stale:
+            # the system handed to the solver was left over by the previous iteration of the time loop
+            tag = ", ".join(("" if c else "not ") + d[:60] for _k, c, d in p.decisions if not d.startswith("hasattr"))
+            key = (cls, "carried", tag)
+            seen = ctx.__dict__.setdefault("_unsolved_seen", set())
+            if key not in seen:
+                seen.add(key)
+                if _uniform_and_linear(ctx, cls, p):
+                    ctx.ok(
+                        f"{ctx.prop}-s", RES + f"{cls}.simulate:system carried over [{tag}]", f"{f.file}:{sol[0].line}",
+                        "the system of an earlier step is reused only when every time increment equals the first one (exact test over all steps) and the class's scaled diffusivity does not depend on the level: it is then this step's system",
+                    )
+                    continue
+                ctx.bad(
+                    f"{ctx.prop}-s", RES + f"{cls}.simulate:system carried over [{tag}]", f"{f.file}:{sol[0].line}",
+                    "the system solved at a step is assembled in that step from its own time increment and the diffusivity at the previous level; here it is what an earlier iteration left behind",
+                    signature="system carried over " + ",".join(stale), carried=stale, decisions=[d for _k, _c, d in p.decisions],
+                )
+            continue
         if not isinstance(A, ExtObj) or A.qual != "scipy.sparse.diags" or not isinstance(b, Vec):
             raise AnalysisError(f"{cls}.simulate: the solve is not diags-matrix x vector")
         out.append((p, sol[0], A, b))
